@@ -726,12 +726,139 @@ def run_for(ctx, pid, with_mc=True):
         judge(ctx, pid, rejected, focused=(tag != "common_pool"))
         if pid == "C03" and tag != "common_pool":
             group_rule(ctx, scs, rejected)
+    if pid in ("C02", "C03"):
+        big_frames(ctx, pid)
     if pid == "C03":
+        real_socket_handshake(ctx)
         from . import app_common
         app_common.run_extra(ctx, "C03", app_common.fam_app_bursts, "app_bursts",
                              cross={"C13.delivered_late (waited for further traffic)", "C13.events_out_of_order_or_skipped",
                                     "C13.event_never_delivered_although_connection_stayed_up", "C13.delivered_content_differs"})
     negative_controls(ctx, pid)
+
+
+def big_frames(ctx, pid):
+    """Frames of a megabyte and more (masked and unmasked, lengths in every residue mod 4, one receive timeout inside the
+    payload, a following frame).  Such payloads are not put through TLC: what the calls return is compared with the
+    harness's independent decoder (vf/wire.py) here, and reported with the same clause names."""
+    import hashlib
+    import websocket
+    from ..recvworld import FakeSock
+    rng = random.Random(ctx.seed * 97 + int(pid[1:]))
+    base = 1 << 20
+    sizes = [base + d for d in (0, 1, 2, 3, 6)] + ([3 * base + 5, base - 1] if ctx.tier == "thorough" else [])
+    n = 0
+    for size in sizes:
+        for masked in (True, False):
+            for tmo in (None, "inside"):
+                for api in ("recv_frame", "recv_data", "recv"):
+                    if ctx.tier == "quick" and (n + size) % 3:
+                        n += 1
+                        continue
+                    n += 1
+                    payload = rng.randbytes(size)
+                    key = rng.randbytes(4) if masked else None
+                    big = wire.sframe(2, payload, mask=key)
+                    after = [wire.sframe(1, b"after"), wire.sframe(2, b"\x00\x01")]
+                    stream = big + b"".join(after)
+                    pos = 14 + rng.randrange(size - 100) if tmo else None
+                    sc = {"stream": stream, "cuts": [pos] if pos else [], "timeouts": [pos] if pos else []}
+                    ws = websocket.WebSocket()
+                    ws.sock = FakeSock(sc, lambda e: None)
+                    ws.connected = True
+                    got = []
+                    for _ in range(6):
+                        try:
+                            if api == "recv_frame":
+                                fr = ws.recv_frame()
+                                got.append((int(fr.opcode), hashlib.sha256(bytes(fr.data)).hexdigest(), len(fr.data)))
+                            elif api == "recv_data":
+                                op, d = ws.recv_data()
+                                got.append((int(op), hashlib.sha256(bytes(d)).hexdigest(), len(d)))
+                            else:
+                                v = ws.recv()
+                                b = v.encode() if isinstance(v, str) else bytes(v)
+                                got.append((1 if isinstance(v, str) else 2, hashlib.sha256(b).hexdigest(), len(b)))
+                        except websocket.WebSocketTimeoutException:
+                            continue
+                        except websocket.WebSocketConnectionClosedException:
+                            break
+                        except Exception as e:      # noqa
+                            got.append(("raise", type(e).__name__, str(e)[:60]))
+                            break
+                    want = [(2, hashlib.sha256(payload).hexdigest(), size), (1, hashlib.sha256(b"after").hexdigest(), 5),
+                            (2, hashlib.sha256(b"\x00\x01").hexdigest(), 2)]
+                    ctx.case(("big", size, masked, bool(tmo), api))
+                    ctx.traces += 1
+                    if got != want:
+                        clause = "C02.decoded_result_differs" if not tmo else "C03.result_depends_on_segmentation"
+                        first = next((i for i, (a, b) in enumerate(zip(got + [None] * 3, want)) if a != b), 0)
+                        ctx.deviation(None, "frame of %d bytes (%s%s) via %s followed by two frames: result %d differs from the independent decoder: got %s"
+                                      % (size, "masked" if masked else "unmasked", ", one timeout inside the payload" if tmo else "", api, first,
+                                         [g[:1] + g[2:] if g[0] != "raise" else g for g in got][:4]),
+                                      {"clause": clause, "size": size, "masked": masked, "timeout_at": pos, "api": api})
+    ctx.notes["big_frames"] = n
+
+
+def real_socket_handshake(ctx):
+    """The handshake response over a real socket.socket (a socket pair), written by the peer in two segments with a pause, the
+    cut at every position around the line ends of the head (CR | LF, LF | next line, before the blank line) and inside the first
+    frame: connect() succeeds and the frames that follow are delivered - whatever reading strategy a plain socket invites."""
+    import re
+    import socket as pysocket
+    import threading
+    import time as pytime
+    import websocket
+    frames = wire.sframe(T, b"first") + wire.sframe(B, b"\x01\x02")
+    probe = wire.response_head(b"x" * 24)
+    marks = sorted({m.start() + d for m in re.finditer(rb"\r\n", probe) for d in (0, 1, 2)} | {1, 5, len(probe) - 1, len(probe), len(probe) + 1, len(probe) + 3})
+    if ctx.tier == "quick":
+        marks = marks[::2] + [len(probe) - 3]
+    for cut in sorted(set(marks)):
+        a, b = pysocket.socketpair()
+        res = {}
+
+        def server(sock=b, cut=cut):
+            try:
+                sock.settimeout(5)
+                buf = b""
+                while b"\r\n\r\n" not in buf:
+                    d = sock.recv(4096)
+                    if not d:
+                        return
+                    buf += d
+                key = [l.split(b":", 1)[1].strip() for l in buf.split(b"\r\n") if l.lower().startswith(b"sec-websocket-key:")][0]
+                out = wire.response_head(key) + frames
+                sock.sendall(out[:cut])
+                pytime.sleep(0.04)
+                sock.sendall(out[cut:])
+                pytime.sleep(0.3)
+            except OSError as e:
+                res["server_error"] = repr(e)
+            finally:
+                sock.close()
+        th = threading.Thread(target=server, daemon=True)
+        th.start()
+        got = []
+        try:
+            a.settimeout(3)
+            ws = websocket.create_connection("ws://example.test/real", socket=a, timeout=3)
+            for _ in range(2):
+                op, d = ws.recv_data()
+                got.append((int(op), bytes(d)))
+        except Exception as e:      # noqa
+            got.append(("raise", type(e).__name__, str(e)[:70]))
+        finally:
+            try:
+                a.close()
+            except OSError:
+                pass
+        th.join(3)
+        ctx.case(("real_socket_handshake", cut))
+        ctx.traces += 1
+        if got != [(1, b"first"), (2, b"\x01\x02")]:
+            ctx.deviation(None, "real socket pair, response head + two frames written as two segments cut at byte %d (of %d head bytes): got %s"
+                          % (cut, len(probe), got), {"clause": "C03.valid_handshake_response_refused", "cut": cut, "got": repr(got)})
 
 
 def negative_controls(ctx, pid):
